@@ -518,6 +518,83 @@ func TestC15Concurrent(t *testing.T) {
 	}
 }
 
+// TestC15SameID: eight goroutines, each with an event of its own, resolve the *same* ids at the same moment
+// through caches that have never seen them (a fresh pair of caches per round) — ids this machine really has
+// accounts for (every uid and gid up to 200 and 65534 that os/user resolves; 0 is preloaded by the library and is
+// left out), so that the answer is a name and a lookup is in flight while the others ask. Afterwards the same
+// events are resolved one after the other through another fresh pair: the outcome for a message does not depend on
+// who else was resolving ids.
+func TestC15SameID(t *testing.T) {
+	rounds := hx.EnvInt("VERIF_N", 300)
+	var uids, gids []int
+	for _, id := range append(func() (r []int) {
+		for i := 1; i <= 200; i++ {
+			r = append(r, i)
+		}
+		return
+	}(), 65534, 1000, 999, 998) {
+		if u, err := user.LookupId(fmt.Sprint(id)); err == nil && u.Username != "" {
+			uids = append(uids, id)
+		}
+		if g, err := user.LookupGroupId(fmt.Sprint(id)); err == nil && g.Name != "" {
+			gids = append(gids, id)
+		}
+	}
+	if len(uids) == 0 || len(gids) == 0 {
+		t.Logf("this machine has no accounts besides root: stage not applicable")
+		return
+	}
+	const G = 8
+	event := func(seq, uid, gid int) *aucoalesce.Event {
+		m, err := auparse.ParseLogLine(fmt.Sprintf(`type=SYSCALL msg=audit(1700000000.000:%d): arch=c000003e syscall=2 success=yes exit=3 a0=1 a1=2 a2=3 a3=4 items=0 ppid=1 pid=%d auid=%d uid=%d gid=%d euid=%d suid=%d fsuid=%d egid=%d sgid=%d fsgid=%d tty=pts0 ses=1 comm="c" exe="/bin/c" key=(null)`,
+			seq, seq, uid, uid, gid, uid, uid, uid, gid, gid, gid))
+		if err != nil {
+			t.Fatalf("harness: %v", err)
+		}
+		ev, err := aucoalesce.CoalesceMessages([]*auparse.AuditMessage{m})
+		if err != nil {
+			t.Fatalf("harness: %v", err)
+		}
+		return ev
+	}
+	for r := 0; r < rounds; r++ {
+		uid, gid := uids[r%len(uids)], gids[(r/len(uids)+r)%len(gids)]
+		hC15.BeginLimit("TestC15", C15Case{}, 120*time.Second)
+		users, groups := aucoalesce.NewUserCache(time.Hour), aucoalesce.NewGroupCache(time.Hour)
+		got := make([]string, G)
+		var wg sync.WaitGroup
+		start := make(chan struct{})
+		for g := 0; g < G; g++ {
+			wg.Add(1)
+			go func(g int) {
+				defer wg.Done()
+				ev := event(10*r+g, uid, gid)
+				<-start
+				aucoalesce.ResolveIDsFromCaches(ev, users, groups)
+				b, _ := json.Marshal(ev)
+				got[g] = string(b)
+			}(g)
+		}
+		close(start)
+		wg.Wait()
+		hC15.End()
+		users2, groups2 := aucoalesce.NewUserCache(time.Hour), aucoalesce.NewGroupCache(time.Hour)
+		for g := 0; g < G; g++ {
+			hC15.Eval()
+			ev := event(10*r+g, uid, gid)
+			aucoalesce.ResolveIDsFromCaches(ev, users2, groups2)
+			b, _ := json.Marshal(ev)
+			if string(b) != got[g] {
+				hC15.Fail(t, "TestC15", C15Case{}, "an event with uid %d and gid %d whose ids were resolved while 7 other goroutines resolved the same ids for events of their own (caches that had not seen the ids) is\n  %s\nand resolved alone\n  %s", uid, gid, got[g], b)
+				return
+			}
+			if len(ev.User.Names) > 0 {
+				hC15.Class("same-id-first-sight-resolved-to-a-name")
+			}
+		}
+	}
+}
+
 // TestC15CacheChurn: thousands of unrelated ids between two resolutions of the same messages. A message with
 // hard-coded accounts (alice, staff), with root and with ids nobody knows is coalesced and resolved — through
 // the package's shared caches and through caches of its own — then 1500 (thorough: 20000) events with ids
